@@ -22,8 +22,8 @@ import numpy as np
 from .common import Result, quiet
 from .gridutil import (ALG3, ALG4, POLY_COUNTS, create, grid_arrays, dim_of, digest, pool_map, subprocess_env, PY)
 
-GETTERS = {3: ("grid", "volumes", "volumes_approx", "adjacency", "borders", "distances", "fullgrid"),
-           4: ("grid", "volumes", "adjacency", "borders", "distances", "fullgrid")}
+GETTERS = {3: ("grid", "volumes", "volumes_approx", "adjacency", "borders", "distances", "related_half", "fullgrid"),
+           4: ("grid", "volumes", "adjacency", "borders", "distances", "related_half", "fullgrid")}
 QUICK_SUB = (1, 2, 3, 4, 5, 8, 13, 27, 40, 41, 60)
 CLAUSES = ("twice", "history", "subprocess", "prefix")
 
@@ -42,6 +42,10 @@ def call_getter(obj, alg, N, g):
         return [np.asarray(obj.get_spherical_voronoi().get_voronoi_volumes())]
     if g == "volumes_approx":
         return [np.asarray(obj.get_spherical_voronoi().get_voronoi_volumes(approx=True))]
+    if g == "related_half":
+        # public getter forwarded to the Voronoi object: builds a *new* HalfRotobjVoronoi (new helper-point cloud) at
+        # call time, i.e. in whatever state the history left the global generator
+        return [np.asarray(obj.get_related_half_voronoi().get_voronoi_volumes(approx=True))]
     if g == "fullgrid":
         from molgri.space.fullgrid import FullGrid
         if d == 3:
@@ -177,7 +181,8 @@ def spec_task(case):
         if g in B and A1[g] != B[g]:
             fails.append(("history", g, f"fresh object after the history (getter order B) differs from the first fresh object "
                           f"({A1[g][0]}/{A1[g][1] if A1[g][0] == 'exc' else ''} -> {B[g][0]}/{B[g][1] if B[g][0] == 'exc' else ''})"))
-    A2 = {g: outcome(objA, alg, N, g) for g in orderB}
+    # 'fullgrid' builds its own objects from the grid *name*; a second call "on A" would only repeat pass B
+    A2 = {g: outcome(objA, alg, N, g) for g in orderB if g != "fullgrid"}
     for g in orderA:
         if g in A2 and A1[g] != A2[g]:
             fails.append(("twice", g, "second call on the first object (after the history, getter order B) returns something else"))
@@ -249,7 +254,7 @@ def subprocess_wanted(tier, alg, N):
         return True
     if alg in ("fulldiv", "zero3D", "zero4D"):
         return True
-    return N in QUICK_SUB
+    return N in QUICK_SUB and not (alg == "cube4D" and N > 41)
 
 
 def spec_cost(c):
@@ -291,7 +296,7 @@ def run(tier, seed):
                  bound="histories/getters: " + "; ".join(
                      f"{a}: N in {_rng_text(Ns)}" for a, Ns in dom.items()) +
                  f"; fresh-interpreter comparison for {nsub} of these specifications"
-                 + (" (N in %s and fulldiv/zero grids)" % _rng_text(QUICK_SUB) if tier == "quick" else " (all)")
+                 + (" (N in %s, without cube4D_60, and fulldiv/zero grids)" % _rng_text(QUICK_SUB) if tier == "quick" else " (all)")
                  + "; prefix sets: " + "; ".join(f"{a}: {_rng_text(v)}" for a, v in psets.items())
                  + f"; seed {seed}",
                  oracle="the first fresh object in the task's process (itself compared with a fresh interpreter); "
@@ -327,7 +332,7 @@ def run(tier, seed):
             continue
         ng = len(c["orderA"])
         tsum += np.array(r["stats"]["t"])
-        counts["twice"] += ng; counts["history"] += ng
+        counts["twice"] += ng - 1; counts["history"] += ng
         if r["stats"]["subprocess"]:
             counts["subprocess"] += ng
         if r["stats"]["raising_getters"]:
